@@ -32,3 +32,6 @@
 (14 ((4 1 8 40) ((0 0 1 1 5) (0 1 1 0 6) (2) (0 2 1 0 7) (0 3 1 1 8)) () 3))
 ; C15: two error reports then a produce request on one instance, records read at the end
 (15 (3 (116) ((2 (0 1 0 (0 (3 (97 97 97 97 97 97 97 97))) (0 (98 111 111 109)))) (2 (0 0 1 (0 (2 7)) (2 (69) (109) ()))) (1 (0 () (1 2 3))))))
+; C15: unmarshalable payloads whose marshal error text / type name would need JSON escaping
+(15 (2 (116) (0 1 0 (1 2 1) (0 (98 111 111 109)))))
+(15 (2 (116) (0 0 1 (1 0 2) (2 (69) (109) ()))))
